@@ -269,3 +269,44 @@ def nontrivial_key(case, impl):
     if len(case["vs"]) < 2 or case["M"] < 2:
         return None
     return (case["kind"], tuple((str(c), s, str(a), tuple(v)) for c, s, a, v in case["vs"]), tuple(case.get("poss", [])))
+
+
+def extra_checks(ctx):
+    """Sweeps over pulse functions that share their name (functions from one factory / redefined in a notebook) but not
+    their parameter order: the swept argument, addressed by NAME, must be the one that changes (implementation only)."""
+    import random
+    import numpy as np
+    import broadbean as bb
+    from broadbean import tools
+    from .c05 import _family
+    rng = random.Random(ctx["seed"] + 11)
+    fam = _family()
+    fails, evals = [], 0
+    for _ in range(6 if ctx["tier"] == "quick" else 120):
+        (f1, p1), (f2, p2) = fam[2], fam[3]                 # (start, stop) and (stop, start)
+        if rng.random() < 0.5:
+            (f1, p1), (f2, p2) = (f2, p2), (f1, p1)
+        SR = 100
+        el = bb.Element()
+        for ch, (f, vals) in enumerate(((f1, (1.0, 2.0)), (f2, (3.0, 4.0))), start=1):
+            bp = bb.BluePrint()
+            bp.setSR(SR)
+            bp.insertSegment(0, f, vals, name="seg", dur=0.08)
+            el.addBluePrint(ch, bp)
+        warm = el.copy()
+        warm.changeArg(1, "seg", p1[0], 9.0)                # an earlier edit through the first function
+        arg = rng.choice(p2)
+        vals = [float(rng.randint(10, 99)) for _ in range(rng.randint(2, 4))]
+        seq = tools.makeVaryingSequence(el, [2], ["seg"], [arg], [vals])
+        evals += 1
+        for m, v in enumerate(vals, start=1):
+            got = list(np.asarray(seq.element(m).getArrays()[2]["wfm"])[:2])
+            want = [3.0, 4.0]
+            want[p2.index(arg)] = v
+            if got != want:
+                fails.append(f"makeVaryingSequence over argument {arg!r} of a function with parameters {p2} (a same-named function "
+                             f"with parameters {p1} was edited before): step {m} holds {got}, expected {want}")
+                break
+    for f in fails[:2]:
+        ctx["report"]("sweep over same-named functions: " + f[:300], {"family_failure": f}, True)
+    return {"evaluations": evals, "distinct_nontrivial": evals, "samples": [{"same_named_function_sweeps": evals}]}
